@@ -37,12 +37,14 @@ def make_s_layout(params, part, nparts):
         assume(argcount % nparts == part)
         kwonly = pick(kwonly, MAXK + 1)
         imlevel = pick(imlevel, 2)
-        assume(imlevel <= argcount)
         ndefaults = pick(ndefaults, MAXA + 1)
         assume(ndefaults <= argcount)
         extra_locals = pick(extra_locals, 2)
         has_va = bool(pick(has_va, 2))
         has_kw = bool(pick(has_kw, 2))
+        # a method whose implied self is collected by *args (def m(*args)) has no positional parameter to strip;
+        # without *args such a method cannot be called at all
+        assume(imlevel <= argcount or has_va)
         total = argcount + kwonly + (1 if has_va else 0) + (1 if has_kw else 0) + extra_locals
         code = _Code()
         code.co_argcount = argcount
@@ -58,11 +60,12 @@ def make_s_layout(params, part, nparts):
         f.__dict__['tag'] = 'v'
         m = fromFunction(f, imlevel=imlevel)
         info = m.getSignatureInfo()
-        na = argcount - imlevel
+        strip = min(imlevel, argcount)
+        na = argcount - strip
         # Python semantic: defaults belong to the last ndefaults positionals; if
         # the stripped self had a default, that default is dropped with it.
         nd = min(ndefaults, na)
-        exp_pos = POOL[imlevel:argcount]
+        exp_pos = POOL[strip:argcount]
         exp_req = exp_pos[:na - nd]
         exp_opt = dict(zip(exp_pos[na - nd:], tuple(range(100, 100 + ndefaults))[ndefaults - nd:]))
         exp_va = POOL[argcount + kwonly] if has_va else None
